@@ -438,10 +438,17 @@ def run_case(case: dict) -> dict:
             if case.get("warnings_error"):
                 warnings.simplefilter("error")
                 stats["cfg_warnings_as_errors"] = 1
+            ev0 = ops.LAZY_EVALUATIONS[0]
             plain = run_plain(op_list)
+            ev_plain = ops.LAZY_EVALUATIONS[0] - ev0
+            ev0 = ops.LAZY_EVALUATIONS[0]
             journaled, viol, journals = run_journaled(op_list, plan, stats, consumer, case.get("hook_raises_at", 0), case.get("bulk", 0), case.get("clock_step_back_at"))
+            ev_journaled = ops.LAZY_EVALUATIONS[0] - ev0
             if case.get("clock_step_back_at"):
                 stats["cfg_clock_steps_back"] = 1
+            stats["lazy_constants_evaluated"] = ev_plain
+            if viol is None and ev_journaled != ev_plain and stats.get("_hook_fault_op") is None:
+                viol = {"clause": "lazy-tensor-evaluated-under-journal", "detail": f"the loaders of lazily loaded constants ran {ev_journaled} time(s) in the journaled run and {ev_plain} time(s) in the plain run of the same history", "key": "lazy-tensor-evaluated-under-journal"}
     finally:
         if had_limit:
             sys.tracebacklimit = old_limit
